@@ -507,6 +507,20 @@ func pluginR6(t *tr, p *packages.Package, x *pluginTx) string {
 		fmt.Fprintf(&b, "/-- regenerated from %s: its own expectations on the requested type and the name -/\ndef %s (requested : Ty) (name : String) : List Bool :=\n  [%s]\n\n", fn.doc, fn.lean, strings.Join(conds, ",\n   "))
 	}
 
+	// ---- LookupFactory / FactoryPluginType: isFactoryType first, then the plugin type is the first result
+	for _, fn := range []struct{ decl, lean string }{{"Registry.LookupFactory", "lookupFactorySteps"}, {"FactoryPluginType", "factoryPluginTypeSteps"}} {
+		fd := pluginFindDecl(p, fn.decl)
+		if fd == nil {
+			t.errs = append(t.errs, fn.decl+" not found")
+			continue
+		}
+		var rows []string
+		for _, s := range fd.Body.List {
+			rows = append(rows, pluginCanon(p, fd, s))
+		}
+		fmt.Fprintf(&b, "/-- regenerated from `%s` (canonical statements) -/\ndef %s : List String := [%s]\n\n", fn.decl, fn.lean, pluginQuoteList(rows))
+	}
+
 	// ---- plugin.go: the package-level wrappers around the default registry
 	type wrow struct {
 		name, method string
